@@ -56,7 +56,7 @@ type MIn struct {
 func init() {
 	register(&Driver{
 		Name:     "m3u8",
-		Header:   "From ZenoV Require Import Lib.Harness Ext.FileExt Ext.M3u8 Ext.ExtHarness.\n",
+		Header:   "From Coq Require Import Uint63.\nFrom ZenoV Require Import Lib.Harness Ext.Pack Ext.FileExt Ext.M3u8 Ext.ExtHarness.\n",
 		CaseType: "mcase",
 		Footer:   "\nDefinition DIFF := Eval vm_compute in mdiffs cases.\nPrint DIFF.\nDefinition MON := Eval vm_compute in mmons cases.\nPrint MON.\n",
 		Rule:     "one case = one playlist rendered from a generated structure: media playlists (0..1100 segments so that the parser's ring buffer grows, absolute and relative URIs, titles, byte ranges, keys, maps, discontinuities, date-times, VOD/EVENT/live) and master playlists (EXT-X-MEDIA renditions of all four types placed before, between and after the variants that name their group, I-FRAME variants, unreferenced groups); LF or CRLF; a separate stream of damaged playlists; distinct by input text; non-trivial when at least two URIs are planted",
